@@ -154,7 +154,7 @@ def r3(ctx):
                 tr = b.trace(t["args"][0])
                 s = str(tr)
                 if "raw_output_buffer" in s:
-                    pushes.append((b.name, i))
+                    pushes.extend((o, i) for o in sorted(ctx.prog.owners(b.name)))
     ok = len(pushes) == 1 and pushes[0][0] == CHECK_FILE
     ctx.obligation(ok)
     ctx.covered("writers of raw_output_buffer in the whole crate (MIR)", len(pushes), distinct_keys=[p[0] for p in pushes])
